@@ -6,6 +6,7 @@ import (
 	"strconv"
 
 	"github.com/graphql-go/graphql/language/ast"
+	"github.com/graphql-go/graphql/language/printer"
 )
 
 // normalizeDocument walks the given operation in `doc`, replacing
@@ -79,6 +80,13 @@ func normalizeDocument(schema *Schema, doc *ast.Document, operationName string) 
 		schema:    schema,
 		synthArgs: map[string]interface{}{},
 		newVarDefs: nil,
+		usedNames: map[string]bool{},
+		extracted: map[string]string{},
+	}
+	for _, vd := range op.VariableDefinitions {
+		if vd != nil && vd.Variable != nil && vd.Variable.Name != nil {
+			ctx.usedNames[vd.Variable.Name.Value] = true
+		}
 	}
 
 	newOp := cloneOperation(op)
@@ -357,12 +365,24 @@ type normCtx struct {
 	counter    int
 	synthArgs  map[string]interface{}
 	newVarDefs []*ast.VariableDefinition
+
+	// usedNames holds the names of the operation's own variables, which a
+	// synthetic variable must not reuse.
+	usedNames map[string]bool
+	// extracted maps (type, printed literal) to the synthetic variable already
+	// created for it, so that equal literals stay equal after normalization
+	// (otherwise `{ f(x:1) f(x:1) }` would become two conflicting fields).
+	extracted map[string]string
 }
 
 func (c *normCtx) nextName() string {
-	n := fmt.Sprintf("__pcv%d", c.counter)
-	c.counter++
-	return n
+	for {
+		n := fmt.Sprintf("__pcv%d", c.counter)
+		c.counter++
+		if !c.usedNames[n] {
+			return n
+		}
+	}
 }
 
 // normalizeSelectionSet walks selections under the given parent type.
@@ -461,7 +481,12 @@ func (c *normCtx) tryExtract(value ast.Value, expected Input) (ast.Value, bool) 
 		// downstream error against the original literal.
 		return value, false
 	}
+	literalKey := fmt.Sprintf("%v\x00%v", expected, printer.Print(value))
+	if name, ok := c.extracted[literalKey]; ok {
+		return ast.NewVariable(&ast.Variable{Name: ast.NewName(&ast.Name{Value: name})}), true
+	}
 	name := c.nextName()
+	c.extracted[literalKey] = name
 	// The synthetic argument travels through ordinary variable coercion at
 	// execute time, so it must be the literal in variable (JSON-like) form -
 	// an enum name, not its internal value - rather than the coerced value.
